@@ -5,6 +5,7 @@
 export FPMUT_ROOT=/tmp/fpmut-regress
 cd "$(dirname "$0")/.."
 for d in seeded/${1:-}*/; do
+    [ -f "$d/meta.json" ] || continue
     id=$(basename "$d")
     prop=$(python3 -c "import json;m=json.load(open('$d/meta.json'));print(' '.join(m.get('checked_with',[m['breaks_property']])))")
     out=$(tools/mutant.sh "$d/patch.diff" $prop 2>&1)
